@@ -774,6 +774,26 @@ func (r *Runner) doIter(a *Action, pv *any, call func(func())) error {
 	if nv, of := SatAdd(r.now(), late); late < 0 || of || nv > math.MaxInt64-(1<<50) {
 		late = 0
 	}
+	// a.Sel == 7: the clock moves *during* the iteration instead (in the loop body, after the first element): an element is
+	// judged at the time it is yielded - one that was prefetched before its deadline and handed out after it is a stale read
+	mid := int64(0)
+	if a.Sel == 7 && which != 2 {
+		mid, late = late, 0
+	}
+	t0 := r.now()
+	advanced := false
+	// the model's entries as they are before the iteration (an iteration that comes across expired entries may trigger
+	// maintenance, whose removals are reconciled afterwards)
+	pre := make(map[int]*MEntry, len(r.M))
+	for k, e := range r.M {
+		pre[k] = e
+	}
+	onYield := func(n int) {
+		if mid > 0 && n == 1 && !advanced {
+			advanced = true
+			r.Env.Clock.Advance(mid)
+		}
+	}
 	call(func() {
 		var s2 iter.Seq2[int, int]
 		var s1k, s1v iter.Seq[int]
@@ -798,6 +818,7 @@ func (r *Runner) doIter(a *Action, pv *any, call func(func())) error {
 		case 0:
 			for k, v := range s2 {
 				got = append(got, kv{k, v})
+				onYield(len(got))
 				if stop > 0 && len(got) >= stop {
 					break
 				}
@@ -805,6 +826,7 @@ func (r *Runner) doIter(a *Action, pv *any, call func(func())) error {
 		case 1:
 			for k := range s1k {
 				got = append(got, kv{k, 0})
+				onYield(len(got))
 				if stop > 0 && len(got) >= stop {
 					break
 				}
@@ -820,6 +842,7 @@ func (r *Runner) doIter(a *Action, pv *any, call func(func())) error {
 			for en := range se {
 				got = append(got, kv{en.Key, en.Value})
 				entries = append(entries, en)
+				onYield(len(got))
 				if stop > 0 && len(got) >= stop {
 					break
 				}
@@ -838,6 +861,33 @@ func (r *Runner) doIter(a *Action, pv *any, call func(func())) error {
 	}
 	if err := r.reconcile(); err != nil {
 		return err
+	}
+	if advanced {
+		// judged element by element: the first one at the clock value before the advance, the others at the current one
+		r.St.MidIterAdvances++
+		seen := map[int]bool{}
+		for i, g := range got {
+			if seen[g.k] {
+				return r.fail(FIter, "%s() yielded key %d twice", names[which], g.k)
+			}
+			seen[g.k] = true
+			e := pre[g.k]
+			liveThen := e != nil && (e.ExpInf || r.Cfg.Expiry == ExpNone || t0 < e.Exp)
+			if i > 0 {
+				liveThen = r.live(e)
+			}
+			if e == nil || (which != 1 && e.Val != g.v) {
+				return r.fail(FIter, "%s() yielded (%d,%d) which the model does not hold", names[which], g.k, g.v)
+			}
+			if !liveThen {
+				fct := FIter
+				if r.Facets&FVis != 0 {
+					fct = FVis
+				}
+				return r.fail(fct, "%s() yielded key %d as element %d at clock %d although its entry had expired by then (the clock moved from %d during the iteration): %s", names[which], g.k, i, r.now(), t0, r.descr(e))
+			}
+		}
+		return nil
 	}
 	var want []kv
 	for _, k := range r.sortedKeys() {
